@@ -48,7 +48,10 @@ def to_model(p):
     for idx in numpy.ndindex(*shape):
         d = {}
         for k, c in zip(monos, coefs):
-            v = cval(c[idx])
+            try:
+                v = cval(c[idx])
+            except (TypeError, ValueError) as err:
+                raise MalformedPoly("coefficient %r: %s" % (c[idx], err))
             if v != 0:
                 if k in d:
                     raise MalformedPoly("duplicate monomial %r" % (k,))
